@@ -14,7 +14,7 @@ RULE = ("random histories (depth 10..30) of traffic events (payloads arriving on
         "line (status-derived attributes against the STATUS byte actually shifted out, A2). "
         "Non-trivial: a non-empty FIFO or latched flag was visited; distinct = distinct "
         "(mode, op history with lengths/pipes).")
-REQUIRED = {"status_attrs": 3000, "available": 300, "any": 300, "fifo": 1000, "read": 300,
+REQUIRED = {"read_leaves_fresh_status": 100, "status_attrs": 3000, "available": 300, "any": 300, "fifo": 1000, "read": 300,
             "clear_flags": 200, "flush": 200, "last_tx_arc": 100, "irq_line": 3000}
 BUDGET = {"quick": 150, "thorough": 420}
 
@@ -329,6 +329,15 @@ def _run(ctx, case, rig, rd, rp, dut, peer, prefix, kind):
             if len(rd.tx_fifo) != tx0:
                 viol("read-tx-fifo", "read() changed the TX FIFO")
                 return
+            if npop and name == "read":
+                # read() ends with a transaction of its own: on a quiescent radio the attributes
+                # it leaves behind describe the state AFTER the pop (next payload's pipe)
+                ctx.clause("read_leaves_fresh_status")
+                exp_pipe = rd.rx_fifo[0][0] if rd.rx_fifo else None
+                if dut.pipe != exp_pipe:
+                    viol("read-stale-status", "after read() pipe=%r, the next payload is on %r"
+                         % (dut.pipe, exp_pipe))
+                    return
         elif name == "clear":
             ctx.clause("clear_flags")
             a, b, c = bool(op[1]), bool(op[2]), bool(op[3])
